@@ -106,3 +106,18 @@ Check C05_source_kernel :
   forall pf dflt om n d, - MAXC <= n <= MAXC -> - MAXC <= d <= MAXC -> d <> 0 ->
     g_i128_div_rounded pf dflt n d om = Val (rndq (or_default dflt om) n d).
 Print Assumptions C05_source_kernel.
+
+(* ---- the Decimal-level functions as translated from /repo's current source (gen/GenDec.v): the translated
+   function's outcome is accepted by the specification, for all well-formed operands ---- *)
+From FP Require Import GenDec GenTieDecRound.
+
+Theorem C05_source_round_accepted :
+  forall pf m d n, wf d = true -> -128 <= n <= 127 ->
+    acc_un m Uround d n (out_dec (g_Round_round pf m d n)) = true /\
+    acc_un m Ucround d n (out_odec (g_Round_checked_round pf m d n)) = true.
+Proof. exact src_round_acc. Qed.
+Check C05_source_round_accepted :
+  forall pf m d n, wf d = true -> -128 <= n <= 127 ->
+    acc_un m Uround d n (out_dec (g_Round_round pf m d n)) = true /\
+    acc_un m Ucround d n (out_odec (g_Round_checked_round pf m d n)) = true.
+Print Assumptions C05_source_round_accepted.
